@@ -13,7 +13,8 @@ class TabGymEnv(gym.Env):
     """Gymnasium twin.  reset(seed) picks the (seed mod n)-th initial state, so a second instance
     reset with the same seed reproduces the episode.  `log` records ('reset', seed) / ('step', a)."""
 
-    def __init__(self, table: dict):
+    def __init__(self, table: dict, rng_init: bool = False):
+        self.rng_init = rng_init  # draw the initial state from gymnasium's own np_random (seeded by reset(seed=...))
         self.T = np.asarray(table["T"])
         self.S, self.A = self.T.shape
         self.term = list(table["term"])
@@ -36,8 +37,12 @@ class TabGymEnv(gym.Env):
 
     def reset(self, *, seed=None, options=None):
         self.log.append(("reset", None if seed is None else int(seed)))
-        k = 0 if seed is None else int(seed)
-        self.s = self.init_states[k % len(self.init_states)]
+        if self.rng_init:
+            super().reset(seed=seed)  # gymnasium semantics: seed=None continues the stream of the previous seeding
+            self.s = self.init_states[int(self.np_random.integers(len(self.init_states)))]
+        else:
+            k = 0 if seed is None else int(seed)
+            self.s = self.init_states[k % len(self.init_states)]
         self.t = 0
         return self._obs(), {}
 
